@@ -163,8 +163,8 @@ pub fn compare_declared(native: &WindowUDF, foreign: &WindowUDF, lists: &[Vec<Da
             &mut out,
             "coercion",
             &format!(" of ({})", show(t)),
-            mc_core::catch(|| fields_with_udf(&fields, native)),
-            mc_core::catch(|| fields_with_udf(&fields, foreign)),
+            engine::catch_native(|| fields_with_udf(&fields, native)),
+            engine::catch_foreign(|| fields_with_udf(&fields, foreign)),
             |a, b| types(a) == types(b),
             &|a| show(&types(a)),
         );
@@ -174,8 +174,8 @@ pub fn compare_declared(native: &WindowUDF, foreign: &WindowUDF, lists: &[Vec<Da
             &mut out,
             "field",
             &format!(" for ({})", show(t)),
-            mc_core::catch(|| native.field(WindowUDFFieldArgs::new(&fields, "w"))),
-            mc_core::catch(|| foreign.field(WindowUDFFieldArgs::new(&fields, "w"))),
+            engine::catch_native(|| native.field(WindowUDFFieldArgs::new(&fields, "w"))),
+            engine::catch_foreign(|| foreign.field(WindowUDFFieldArgs::new(&fields, "w"))),
             |a, b| field_text(a) == field_text(b),
             &|a| field_text(a),
         );
@@ -248,7 +248,7 @@ pub fn compare_partition(native: &WindowUDF, foreign: &WindowUDF, s: &Setup, c: 
     let sv_text = |v: &ScalarValue| format!("{v:?}").chars().take(200).collect::<String>();
     let mut fresh = |findings: &mut Vec<Finding>, st: &mut PartStats| -> Option<(Box<dyn PartitionEvaluator>, Box<dyn PartitionEvaluator>)> {
         st.ops += 2;
-        let r = cmp(findings, "partition_evaluator", "", mc_core::catch(|| make(native)), mc_core::catch(|| make(foreign)), |_, _| true, &|_| "evaluator".into());
+        let r = cmp(findings, "partition_evaluator", "", engine::catch_native(|| make(native)), engine::catch_foreign(|| make(foreign)), |_, _| true, &|_| "evaluator".into());
         if let Some((_, f)) = &r {
             if format!("{f:?}").contains("ForeignPartitionEvaluator") {
                 st.foreign_evaluators += 1;
@@ -267,7 +267,7 @@ pub fn compare_partition(native: &WindowUDF, foreign: &WindowUDF, s: &Setup, c: 
     }
     // evaluate_all
     st.ops += 2;
-    if let Some((x, _)) = cmp(&mut findings, "evaluate_all", "", mc_core::catch(|| en.evaluate_all(&values, n)), mc_core::catch(|| ef.evaluate_all(&values, n)), arrays_eq, &arrays_text) {
+    if let Some((x, _)) = cmp(&mut findings, "evaluate_all", "", engine::catch_native(|| en.evaluate_all(&values, n)), engine::catch_foreign(|| ef.evaluate_all(&values, n)), arrays_eq, &arrays_text) {
         st.ok_results += 1;
         if x.null_count() < x.len() {
             st.nonnull_results += 1;
@@ -276,7 +276,7 @@ pub fn compare_partition(native: &WindowUDF, foreign: &WindowUDF, s: &Setup, c: 
     // get_range
     for i in 0..n {
         st.ops += 2;
-        cmp(&mut findings, "get_range", &format!("({i}, {n})"), mc_core::catch(|| en.get_range(i, n)), mc_core::catch(|| ef.get_range(i, n)), |a, b| a == b, &|a| format!("{a:?}"));
+        cmp(&mut findings, "get_range", &format!("({i}, {n})"), engine::catch_native(|| en.get_range(i, n)), engine::catch_foreign(|| ef.get_range(i, n)), |a, b| a == b, &|a| format!("{a:?}"));
     }
     // evaluate over every range, on a fresh pair (evaluators may keep state between calls)
     if let Some((mut en, mut ef)) = fresh(&mut findings, st) {
@@ -284,7 +284,7 @@ pub fn compare_partition(native: &WindowUDF, foreign: &WindowUDF, s: &Setup, c: 
             for hi in lo..=n {
                 let r = lo..hi;
                 st.ops += 2;
-                if let Some((x, _)) = cmp(&mut findings, "evaluate", &format!("(range {r:?})"), mc_core::catch(|| en.evaluate(&values, &r)), mc_core::catch(|| ef.evaluate(&values, &r)), |a, b| a == b, &sv_text) {
+                if let Some((x, _)) = cmp(&mut findings, "evaluate", &format!("(range {r:?})"), engine::catch_native(|| en.evaluate(&values, &r)), engine::catch_foreign(|| ef.evaluate(&values, &r)), |a, b| a == b, &sv_text) {
                     st.ok_results += 1;
                     if !x.is_null() {
                         st.nonnull_results += 1;
@@ -301,8 +301,8 @@ pub fn compare_partition(native: &WindowUDF, foreign: &WindowUDF, s: &Setup, c: 
                 &mut findings,
                 "evaluate_all_with_rank",
                 &format!("({n}, {runs:?})"),
-                mc_core::catch(|| en.evaluate_all_with_rank(n, &runs)),
-                mc_core::catch(|| ef.evaluate_all_with_rank(n, &runs)),
+                engine::catch_native(|| en.evaluate_all_with_rank(n, &runs)),
+                engine::catch_foreign(|| ef.evaluate_all_with_rank(n, &runs)),
                 arrays_eq,
                 &arrays_text,
             ) {
